@@ -36,3 +36,31 @@ def try_start_in_child(conn, proc):
         conn.send('refused')
     except Exception as exc:      # noqa
         conn.send('error:%r' % (exc,))
+
+
+def locked_incr(v, seq, n, conn):
+    """n read-modify-write sequences on v, each under v's own lock; seq (protected by the same
+    lock) numbers them in the order the lock was held"""
+    log = []
+    for _ in range(n):
+        with v.get_lock():
+            r = v.value
+            s = seq.value
+            seq.value = s + 1
+            if (s % 7) == 3:
+                time.sleep(0.0005)      # widen the window an unlocked writer would need
+            v.value = r + 1
+            log.append((s, r, r + 1))
+    conn.send(log)
+    conn.close()
+
+
+def visibility(arr, conn):
+    """child side of the two-way visibility handshake"""
+    t0 = time.time()
+    while arr[0] != 17 and time.time() - t0 < 10:
+        time.sleep(0.001)
+    saw = arr[0]
+    arr[1] = 23
+    conn.send(saw)
+    conn.close()
